@@ -242,6 +242,12 @@ impl Runner {
                 if q[2] == 0 && post.supply_b + post.batch.1 > 0 {
                     self.bump("states_zero_backed_bsei");
                 }
+                if q[2] > 0 && q[3] > 0 && ((post.supply_b == 0 && post.batch.1 > 0) || (post.supply_s == 0 && post.batch.2 > 0)) {
+                    self.bump("states_whole_supply_of_a_token_pending");
+                    if post.raw[2] + post.raw[3] > post.delegated {
+                        self.bump("states_whole_supply_pending_with_unrecognised_slash");
+                    }
+                }
             }
             if post.hist.len() > pre.hist.len() {
                 self.bump("undelegations");
